@@ -719,23 +719,44 @@ var _ uuid.UUID
 //@ ensures [map] ret != nil
 //@ modifies nothing
 
+// C11 (batch fan-out): a worker reports exactly once, on every path - the per-item outcome map of its partition, or the
+// error of the whole sub-batch spread over its items
 //@ func (*storage.Dataset).handlePartitionBatchRequest
-//@ props C12
+//@ props C12 C11
+//@ ghost sent int = 0
+//@ at send param:resultCh
+//@ set sent = sent + 1
+//@ end
+//@ noclose resultCh
+//@ ensures [C11 one-message] sent == 1
 //@ requires [wf] wfDataset(this) && wfPartition(this, partition) && !isnil(ctx) && noNilItems(items) && wg != nil && remoteFn != nil && localFn != nil
 //@ modifies *
 
+// C11 (batch fan-in): one worker per partition group; success only after exactly as many messages as workers were consumed
 //@ func (*storage.Dataset).partitionsBatchRequest
-//@ props C12
+//@ props C12 C11
+//@ ghost spawned int = 0
+//@ ghost real int = 0
 //@ at go handlePartitionBatchRequest
 //@ requires [C12 worker-pre] wfPartition(this, $arg2) && noNilItems($arg3) && $arg4 != nil && $arg6 != nil && $arg7 != nil
+//@ set spawned = spawned + 1
 //@ end
+//@ at recv local:resultCh
+//@ assume [protocol: resultCh is unbuffered and closed only after wg.Wait(), i.e. after every worker's single send was received - so each of the first `spawned` receives is a real message] $ok
+//@ set real = real + 1
+//@ end
+//@ ensures [C11 all-partitions-answered] isnil(ret1) ==> real == spawned
 //@ requires [wf] wfDatasetFull(this) && !isnil(ctx) && noNilItems(items) && remoteFn != nil && localFn != nil
 //@ ensures [map-xor-error] isnil(ret1) ==> ret0 != nil
 //@ modifies *
 //@ loop 1
 //@ invariant [groups] wfDataset(this) && wfGroups(this, $map) && remoteFn != nil && localFn != nil
+//@ invariant [C11 spawned] spawned == $count && real == 0
 //@ loop 2
 //@ invariant [count] 0 <= i && i <= len(partitionItems) && errors != nil
+//@ invariant [C11 consumed] real == i && spawned == len(partitionItems)
+//@ loop 3
+//@ invariant [C11 merging] real == i + 1 && spawned == len(partitionItems) && errors != nil && 0 <= i && i < len(partitionItems)
 
 // the closures that the batch methods hand to partitionsBatchRequest
 //@ func (*storage.Dataset).BatchInsert$1
